@@ -917,3 +917,64 @@ def is_propagated_err(t):
     e = unwrap_err(t)
     return e is not None and mentions(e, lambda s: s[0] == "downcast" and s[2] == "Err" and is_call(strip_refs(s[1])))
 
+
+# ---------------------------------------------------------------- collections: one form for v.len() / v[i] however they are written
+
+COLL_VIEWS = ("::as_slice", "Deref>::deref", "AsRef", "::as_ref", "Borrow", "::borrow", "::as_mut_slice", "DerefMut>::deref_mut")
+
+
+def coll(t):
+    """the collection behind a slice view: strips references, derefs and as_slice()/deref() views"""
+    t = strip_refs(t)
+    for _ in range(8):
+        if is_call(t, *COLL_VIEWS) and call_args(t):
+            t = strip_refs(call_args(t)[0])
+        elif isinstance(t, tuple) and t and t[0] == "deref":
+            t = strip_refs(t[1])
+        else:
+            break
+    return t
+
+
+def length_of(t):
+    """the collection whose length t is: v.len(), slice length metadata (PtrMetadata, from slice patterns); else None"""
+    t = strip_refs(t)
+    if is_call(t, "::len") and call_args(t):
+        return coll(call_args(t)[0])
+    if isinstance(t, tuple) and t and t[0] == "unop" and t[1] == "PtrMetadata":
+        return coll(t[2])
+    return None
+
+
+def length_fact(c):
+    """(collection, allowed) for a path condition that constrains a length: allowed(n) -> bool says whether length n is consistent with it.
+    Forms: switch on v.len(); v.len() ==/!=/</<=/>/>= k (either operand order); slice-pattern length tests."""
+    t = c.term
+    lc = length_of(t)
+    if lc is not None:
+        if c.fact[0] == "eq":
+            return lc, (lambda n, v=c.fact[1]: n == v)
+        return lc, (lambda n, vs=c.fact[1]: n not in vs)
+    if isinstance(t, tuple) and t and t[0] == "binop" and t[1] in ("Eq", "Ne", "Lt", "Le", "Gt", "Ge"):
+        op, a, b = t[1], t[2], t[3]
+        if length_of(a) is None and length_of(b) is not None and const_int(a) is not None:
+            a, b = b, a
+            op = {"Lt": "Gt", "Le": "Ge", "Gt": "Lt", "Ge": "Le"}.get(op, op)
+        lc, k = length_of(a), const_int(b)
+        if lc is not None and k is not None and c.fact[0] == "eq" and isinstance(c.fact[1], bool):
+            f = {"Eq": lambda n: n == k, "Ne": lambda n: n != k, "Lt": lambda n: n < k, "Le": lambda n: n <= k, "Gt": lambda n: n > k, "Ge": lambda n: n >= k}[op]
+            return lc, (f if c.fact[1] else (lambda n, f=f: not f(n)))
+    return None
+
+
+def element_of(t):
+    """(collection, i) if t is element i of a collection: v[i] through Index::index, or a constant-index projection (slice pattern)"""
+    t = strip_refs(t)
+    while isinstance(t, tuple) and t and t[0] == "deref":
+        t = strip_refs(t[1])
+    if is_index_call(t) and const_int(call_args(t)[1]) is not None:
+        return coll(call_args(t)[0]), const_int(call_args(t)[1])
+    if isinstance(t, tuple) and t and t[0] == "index" and const_int(t[2]) is not None and const_int(t[2]) >= 0:
+        return coll(t[1]), const_int(t[2])
+    return None
+
